@@ -548,6 +548,16 @@ Theorem C11_po_refs_id_var : forall id pv, pe_refs_id_var (refs_of id pv) None N
 Proof. exact refs_id_var. Qed.
 Print Assumptions C11_po_refs_id_var.
 
+(* THE WHOLE FILE: File.WriteTo of the extractor's entries for any list of messages (description, id, plural
+   variable, quoted fields), as bytes, through bufio.ScanLines and the loop of po.Parse (nextmsg skipping the empty
+   lines, the message literal per entry): every entry comes back, in order, with its references and its quoted
+   fields, and no error is flagged.  (What Parse then does with a first entry whose msgid is empty -- the header,
+   textproto, Plural-Forms -- is outside the model; the extractor writes no header and no empty msgid.) *)
+Theorem C11_po_parse_extracted_file : forall is_print (es : list xentry), Forall xentry_ok es ->
+  pe_parse (pe_write_file is_print (map xentry_msg es)) = Ok (map xentry_read es).
+Proof. exact parse_extracted_file. Qed.
+Print Assumptions C11_po_parse_extracted_file.
+
 (* before the repair (the description written as ONE "#. " value): a description of two lines puts its second
    line inside the entry, and the message Parse reads has no reference and no msgid *)
 Theorem C11_po_pinned_entry_refuted :
